@@ -175,8 +175,21 @@ def run_tdms_case(ctx, idx):
         src = tdms_fixture(name)
         from vmon.monitors.cli_tasks import sha256
         shas = {p: sha256(p) for p in src.parent.iterdir() if p.is_file()}
-        for skip in (True, False):
-            out = tmp / f"out_{skip}.rtdc"
+        from dclab.rtdc_dataset import writer as dwriter
+        n_exported = {}
+        runs = [(True, None), (False, None), (True, "remainder-1"), (False, "remainder-1")]
+        for skip, chunk_mode in runs:
+            out = tmp / f"out_{skip}_{chunk_mode}.rtdc"
+            dwriter.CHUNK_SIZE_BYTES = 1024 ** 2
+            if chunk_mode is not None:
+                # chunk-size configuration under which the last image stack of the export
+                # holds exactly one event (stack length = events - 1, at least 10)
+                n_, fb_ = n_exported.get(skip, (0, 0))
+                if n_ < 12 or not fb_:
+                    ctx.count("tdms_chunk_configuration_not_applicable")
+                    continue
+                dwriter.CHUNK_SIZE_BYTES = fb_ * (n_ - 1) + fb_ // 2
+                ctx.count("tdms_runs_with_single_event_remainder")
             try:
                 cli.tdms2rtdc(path_tdms=src, path_rtdc=out, compute_features=False,
                               skip_initial_empty_image=skip, skip_final_empty_image=skip,
@@ -197,6 +210,13 @@ def run_tdms_case(ctx, idx):
                 lmin = min(feature_len(ds, f) for f in ds.features_innate)
                 keep[lmin:] = False
                 idxs = np.flatnonzero(keep)
+                fbytes = 0
+                for f_ in ("image", "mask"):
+                    if f_ in ds.features_innate and len(idxs):
+                        fr = np.asarray(ds[f_][int(idxs[0])])
+                        fbytes = max(fbytes, fr.size * (1 if f_ == "mask" else fr.dtype.itemsize))
+                if chunk_mode is None:
+                    n_exported[skip] = (int(len(idxs)), int(fbytes))
                 diffs = []
                 if len(do) != len(idxs):
                     diffs.append({"len_out": len(do), "expected": int(len(idxs))})
@@ -217,9 +237,12 @@ def run_tdms_case(ctx, idx):
                         if d:
                             diffs.append({"feature": f, "diff": d})
                 ctx.check("c08.tdms2rtdc.features", not diffs,
-                          lambda: {"fixture": name, "skip_empty": skip, "diffs": diffs[:5]},
+                          lambda: {"fixture": name, "skip_empty": skip, "diffs": diffs[:5],
+                                   "chunk_size_bytes": dwriter.CHUNK_SIZE_BYTES,
+                                   "events": int(len(idxs))},
                           message=f"tdms2rtdc output differs from the .tdms source: {diffs[:2]}")
-                ctx.mark_nontrivial(["tdms", name, skip])
+                ctx.mark_nontrivial(["tdms", name, skip, chunk_mode])
+        dwriter.CHUNK_SIZE_BYTES = 1024 ** 2
         # condense of a tdms input
         outc = tmp / "cond.rtdc"
         try:
